@@ -12,6 +12,7 @@ var e2Props = map[string]*simcheck.Prop{
 	"C02": {ID: "C02", Gen: c02Gen, New: newHistScenario, Exec: c02Exec, Simplify: histSimplify},
 	"C08": {ID: "C08", Gen: c08Gen, New: newHistScenario, Exec: c08Exec, Simplify: histSimplify},
 	"C03": {ID: "C03", Gen: c03Gen, New: newHistScenario, Exec: c03Exec, Simplify: histSimplify},
+	"C20": {ID: "C20", Gen: e3Gen, New: func() any { return &e3Scenario{} }, Exec: e3Exec, Simplify: e3Simplify},
 	"C06": {ID: "C06", Gen: c06Gen, New: newHistScenario, Exec: c06Exec, Simplify: loadSimplify},
 }
 
